@@ -1,6 +1,7 @@
 import FractopoModel.Generated.Windows
 import FractopoModel.Generated.ValidationDefaults
 import FractopoModel.Generated.JunctionShift
+import FractopoModel.Lemmas.Underlap
 /-!
 # C10 — near-threshold errors are reported inside the documented windows only
 (the window arithmetic; the detectors' geometry is tied by stream S10)
@@ -58,6 +59,51 @@ theorem C10_stacking_defaults :
     Gen.SNAP_THRESHOLD_ERROR_MULTIPLIER * Gen.STACKED_DETECTOR_BUFFER_MULTIPLIER = 11 / 2 ∧ Gen.OVERLAP_DETECTION_MULTIPLIER = 50 ∧
     Gen.SHARP_AVG_THRESHOLD = 135 ∧ Gen.SHARP_PREV_SEG_THRESHOLD = 100 ∧ Gen.TRIANGLE_ERROR_SNAP_MULTIPLIER = 10 := by
   decide +kernel
+
+/-! ### the under/overlap validator as a whole (regenerated loops) -/
+
+/-- **The regenerated `UnderlappingSnapValidator.validation_method` is the specified decision**: both loops, the well-snapped
+skip, the window test, the first hit deciding, the string written into the class attribute -- for every trace, every
+candidate list (any length), any thresholds, any behaviour of the geometric oracles. -/
+theorem C10_generated_underlap_eq_spec {L P : Type} (endpoints_of : L → List P) (dist : L → P → Rat) (isUl : L → L → P → Option Bool)
+    (overlaps : L → L → Bool) (geom : L) (cands : List L) (t m : Rat) (glob : String) :
+    Gen.underlap_validation endpoints_of dist isUl overlaps geom cands t m glob
+      = Spec.underlapVerdict dist isUl overlaps geom cands (endpoints_of geom) t m glob :=
+  Underlap.generated_eq_spec endpoints_of dist isUl overlaps geom cands t m glob
+
+/-- the window used inside the loops is the regenerated window expression of `C10_underlap_window` -/
+theorem C10_loop_window (t m d : Rat) : Spec.inWindow t m d = Gen.underlap_window d t m := by
+  unfold Spec.inWindow Gen.underlap_window; rfl
+
+/-- **Reported inside the window only, and only for ends that are not well snapped**: the trace passes exactly when every
+end is either strictly within the threshold of some candidate, or has no candidate at a distance in (t, t·m) -/
+theorem C10_underlap_silent_iff {L P : Type} (dist : L → P → Rat) (t m : Rat) (cands : List L) (eps : List P) :
+    Spec.underlapHit dist t m cands eps = none ↔
+      ∀ ep ∈ eps, Spec.wellSnapped dist cands t ep = true ∨ ∀ c ∈ cands, Spec.inWindow t m (dist c ep) = false := by
+  unfold Spec.underlapHit
+  rw [List.findSome?_eq_none_iff]
+  constructor
+  · intro h ep hep
+    have := h ep hep
+    by_cases hw : Spec.wellSnapped dist cands t ep = true
+    · exact .inl hw
+    · right
+      simp only [hw, Bool.false_eq_true, if_false, Option.map_eq_none_iff, List.find?_eq_none] at this
+      intro c hc
+      simpa using this c hc
+  · intro h ep hep
+    rcases h ep hep with hw | hn
+    · simp [hw]
+    · by_cases hw : Spec.wellSnapped dist cands t ep = true
+      · simp [hw]
+      · simp only [hw, Bool.false_eq_true, if_false, Option.map_eq_none_iff, List.find?_eq_none]
+        intro c hc
+        simp [hn c hc]
+
+/-- non-vacuity: one candidate, first end 1.05 t away (inside the window), second end free; the oracle says "underlapping" -/
+example :
+    Gen.underlap_validation (fun (_ : Unit) => [0, 1]) (fun _ (p : Nat) => if p = 0 then 21 / 2000 else 5) (fun _ _ _ => some true) (fun _ _ => false)
+      () [()] (1 / 100) (11 / 10) "x" = .ok (false, "UNDERLAPPING SNAP") := by decide +kernel
 
 example : Gen.underlap_window (21 / 2000) (1 / 100) (11 / 10) = true ∧ Gen.underlap_window (1 / 100) (1 / 100) (11 / 10) = false := by decide +kernel
 
